@@ -508,6 +508,26 @@ static int markAccessors(Module &M) {
       acc.insert(&F); changed = true;
     }
   }
+  // "guard helpers": `static void require(bool ok) { if (!ok) abort(); }` -- no memory access at all, the only call is to a
+  // function that does not return.  Writing a precondition through such a helper is writing the test in place.
+  for (auto &F : M) {
+    if (F.isDeclaration() || F.isVarArg() || acc.count(&F) || !F.hasLocalLinkage()) continue;
+    if (F.hasFnAttribute(Attribute::NoInline) || F.hasFnAttribute(Attribute::OptimizeNone)) continue;
+    if (!F.getReturnType()->isVoidTy() || F.size() > 4) continue;
+    unsigned n = 0, aborts = 0; bool ok = true;
+    for (auto &BB : F) for (auto &I : BB) {
+      if (isa<DbgInfoIntrinsic>(&I)) continue;
+      n++;
+      if (isa<StoreInst>(&I) || isa<LoadInst>(&I) || isa<AtomicRMWInst>(&I) || isa<AtomicCmpXchgInst>(&I) || isa<AllocaInst>(&I) || isa<InvokeInst>(&I) || isa<FenceInst>(&I)) ok = false;
+      else if (auto *CB = dyn_cast<CallBase>(&I)) {
+        Function *cf = dyn_cast<Function>(CB->getCalledOperand()->stripPointerCasts());
+        if (cf && (cf->doesNotReturn() || CB->doesNotReturn())) aborts++; else ok = false;
+      }
+    }
+    if (!ok || aborts == 0 || n > 16 || hasBackEdge(F)) continue;
+    acc.insert(&F);
+    if (getenv("IRDUMP_VERBOSE")) errs() << "guard helper: " << F.getName() << "\n";
+  }
   // "field setters": a private helper of the unit's own .c file whose only effect is ONE store of an argument or constant
   // through a pointer computed (by accessors) from its arguments -- `paint(node, colour)`, `set_next(n, x)`.  The write
   // is the caller's write; naming it is not a change of behaviour.
@@ -557,6 +577,7 @@ static bool cursorArgOK(Value *A, const std::map<Function *, std::set<unsigned>>
 }
 static int markCursorHelpers(Module &M) {
   std::map<Function *, std::set<unsigned>> cand;
+  std::set<Function *> byValue;
   // the object must be of a type the unit declares for itself (struct xyz_iter in the .c file): a public type
   // (a list, an iterator handed to callers) is part of the API and the rules name its builders
   Ctx DC; DC.M = &M; DC.DL = &M.getDataLayout();
@@ -582,6 +603,8 @@ static int markCursorHelpers(Module &M) {
     std::set<unsigned> ps;
     for (auto &A : F.args()) if (auto *PT = dyn_cast<PointerType>(A.getType())) if (unitPrivate(PT->getPointerElementType())) ps.insert(A.getArgNo());
     if (!ps.empty()) cand[&F] = ps;
+    // a helper that hands back a small struct by value (a pair of results): the caller takes it apart again at once
+    if (F.getReturnType()->isStructTy()) byValue.insert(&F);
   }
   bool changed = true;
   while (changed) {
@@ -598,6 +621,12 @@ static int markCursorHelpers(Module &M) {
       if (keep.empty()) it = cand.erase(it); else { it->second = keep; ++it; }
     }
   }
+  for (auto *F : byValue) if (!cand.count(F)) {
+    F->addFnAttr(Attribute::AlwaysInline);
+    F->addFnAttr("cstlsa-cursor");
+    if (getenv("IRDUMP_VERBOSE")) errs() << "struct-by-value helper: " << F->getName() << "\n";
+    for (auto *U : F->users()) cast<CallBase>(U)->getFunction()->addFnAttr("cstlsa-sroa");
+  }
   for (auto &kv : cand) {
     kv.first->addFnAttr(Attribute::AlwaysInline);
     kv.first->addFnAttr("cstlsa-cursor");
@@ -611,7 +640,7 @@ static int markCursorHelpers(Module &M) {
     for (auto &F : M) if (F.hasFnAttribute("cstlsa-sroa") && F.hasFnAttribute(Attribute::AlwaysInline))
       for (auto *U : F.users()) if (auto *CB = dyn_cast<CallBase>(U)) if (!CB->getFunction()->hasFnAttribute("cstlsa-sroa")) { CB->getFunction()->addFnAttr("cstlsa-sroa"); changed = true; }
   }
-  return (int)cand.size();
+  return (int)(cand.size() + byValue.size());
 }
 static void sroaMarked(Module &M) {
   legacy::FunctionPassManager FPM(&M);
